@@ -51,7 +51,9 @@ BROKEN_DEP5 = {
     "empty": "", "only-header": DEP5_HEAD, "no-header": "Files: *\nCopyright: 2020 J\nLicense: MIT\n",
     "license-with-text": DEP5_HEAD + "Files: *\nCopyright: 2020 J\nLicense: MIT\n Permission is hereby granted\n .\n more\n",
 }
-COMMANDS = ["lint", "lint-json", "lint-file", "spdx", "annotate", "download-all", "convert-dep5", "supported-licenses"]
+COMMANDS = ["lint", "lint-json", "lint-file", "spdx", "annotate", "annotate-terminator", "download-all", "convert-dep5", "supported-licenses"]
+HOSTILE_GLOBS = ["src/data\\", "\\", "a\\\\\\", "**\\", "[", "[a-", "?", "", " ", "*" * 60, "a/../b", "/abs/path", "./x", "a//b", "**/**/**", "\\\\", "{a,b}", "a\nb", "\u0000",
+                 "é/ü", "~", "$HOME", "%s", "(", ")", "(?P<x>", "+", "^$", "|", "a|b"]
 
 
 def toml_with(repl: dict) -> str:
@@ -116,6 +118,9 @@ def cases(tier, seed):
     for name in BROKEN_TOML:
         for where in ("root", "nested"):
             yield {"k": "broken-toml", "name": name, "where": where}
+    for gi in range(len(HOSTILE_GLOBS)):
+        for where in ("root", "nested"):
+            yield {"k": "glob", "glob": gi, "where": where}
     yield {"k": "broken-toml", "name": "invalid-utf8", "where": "root"}
     yield {"k": "broken-toml", "name": "empty-file", "where": "root"}
     for name in BROKEN_DEP5:
@@ -150,6 +155,8 @@ def run_command(cmd, root):
         return run_cli(base + ["spdx"])
     if cmd == "annotate":
         return run_cli(base + ["annotate", "--copyright", "Kim", "--year", "2020", str(root / "src/b.c")])
+    if cmd == "annotate-terminator":
+        return run_cli(base + ["annotate", "--copyright", "Kim */ --> Corp", "--year", "2020", str(root / "src/b.c"), str(root / "src/a.py")])
     if cmd == "download-all":
         with stub_net(lambda ident: ("ok", b"text of " + ident.encode())), virtual_pool({"chunksize": 1000}):
             return run_cli(["--root", str(root), "download", "--all"])
@@ -197,6 +204,27 @@ def ev_toml(c) -> R:
     r.outcome = f"toml-exit{max(outs[:2])}"
     r.nontrivial = any(s not in ("absent",) for s in c["repl"].values())
     r.tags.append("toml")
+    return r
+
+
+def ev_glob(c) -> R:
+    """Hostile strings as REUSE.toml path globs (every string is a valid TOML string)."""
+    r = R()
+    g = HOSTILE_GLOBS[c["glob"]]
+    cfg = "REUSE.toml" if c["where"] == "root" else "src/REUSE.toml"
+    text = "version = 1\n\n[[annotations]]\npath = [%s, \"src/**\"]\nSPDX-FileCopyrightText = \"2020 J\"\nSPDX-License-Identifier = \"MIT\"\n" % json.dumps(g)
+    for cmd in COMMANDS:
+        root = fresh_dir("c16")
+        rec = dict(BASE)
+        rec[cfg] = text
+        if c["where"] == "nested":
+            rec["REUSE.toml"] = "version = 1\n"
+        materialise(root, rec)
+        out = run_command(cmd, root)
+        judge(r, out, cmd, f"{cfg} with path glob {g!r}", f"glob|{g!r}", config_path=cfg)
+    r.evals = len(COMMANDS)
+    r.outcome = "glob"
+    r.tags.append("glob")
     return r
 
 
@@ -363,7 +391,7 @@ def ev_io(c) -> R:
     return r
 
 
-_EV = {"toml": ev_toml, "broken-toml": ev_broken_toml, "dep5": ev_dep5, "bytes": ev_bytes, "licenses": ev_licenses, "io": ev_io}
+_EV = {"glob": ev_glob, "toml": ev_toml, "broken-toml": ev_broken_toml, "dep5": ev_dep5, "bytes": ev_bytes, "licenses": ev_licenses, "io": ev_io}
 
 
 def evaluate(c) -> R:
